@@ -219,6 +219,7 @@ struct Stats {
     cases_cut_by_time_slice: u64,
     seed_rejects: Vec<String>,
     backtrace_lookups: u64,
+    timeouts_after_confirmed_hang: u64,
     directed: u64,
     directed_outcomes: Vec<String>,
     clause: u64,
@@ -476,6 +477,13 @@ impl<'a> Runner<'a> {
         ctx.eval();
         self.st.exec += 1;
         let name = self.e.name;
+        if let (Outcome::Timeout, true) = (&out, self.st.hangs >= 2) {
+            // the entry point already has a twice-confirmed hang: do not spend another 40 s per timeout.
+            // Unconfirmed timeouts are never violations, they are only counted.
+            self.st.timeouts_after_confirmed_hang += 1;
+            ctx.count("timeouts_not_reconfirmed_after_two_confirmed_hangs");
+            return None;
+        }
         if let Outcome::Timeout = out {
             // hang rule: re-run alone in a fresh child with 20x the budget
             let t = Instant::now();
@@ -622,7 +630,7 @@ impl<'a> Runner<'a> {
             "executions": self.st.exec, "ok": self.st.ok, "err": self.st.err,
             "seeds": self.st.seeds, "seeds_parsed_ok": self.st.seeds_ok, "seeds_not_ok": self.st.seed_rejects, "directed": self.st.directed_outcomes,
             "panics": self.st.panics, "died": self.st.died, "hangs": self.st.hangs,
-            "timeouts_transient": self.st.timeouts_transient, "slow": self.st.slow,
+            "timeouts_transient": self.st.timeouts_transient, "timeouts_after_confirmed_hang": self.st.timeouts_after_confirmed_hang, "slow": self.st.slow,
             "died_unreproduced": self.st.died_unreproduced, "batch_fallbacks": self.st.batch_fallbacks, "mutation_batches_cut_by_time_slice": self.st.cases_cut_by_time_slice,
             "ok_classes": self.st.ok_classes.len(), "err_classes": self.st.err_classes.iter().take(12).collect::<Vec<_>>(),
             "child_starts": self.child.restarts,
@@ -693,12 +701,20 @@ pub fn run(ctx: &mut Ctx) {
     // loaded machine shrinks all case counts evenly instead of starving the entries at the end of the table
     let budget_s: f64 = std::env::var("GXV_BUDGET_S").ok().and_then(|s| s.parse().ok()).unwrap_or(if ctx.quick() { 60.0 } else { 600.0 }) * 0.7;
     let replaying = ctx.replay.is_some();
+    // debugging aid: restrict the run to some entry points (never set by the check driver)
+    let only = std::env::var("GXV_C06_ONLY").ok();
+    if only.is_some() {
+        ctx.note("restricted_to_entries", json!(only));
+    }
     let mut per_entry = serde_json::Map::new();
     let all = entries();
     ctx.note("entry_point_count", json!(all.len()));
     for (idx, ent) in all.iter().enumerate() {
         let l_seeds = format!("{}#seeds", ent.name);
         let l_sweep = format!("{}#sweep", ent.name);
+        if only.as_ref().is_some_and(|o| !o.split(',').any(|n| n == ent.name)) {
+            continue;
+        }
         if let Some((label, _)) = &ctx.replay {
             if label != ent.name && *label != l_seeds && *label != l_sweep {
                 continue;
@@ -2754,6 +2770,14 @@ fn directed_inputs(name: &str) -> Vec<(&'static str, Vec<u8>)> {
             let greedy = [git_varint(u64::MAX >> 4), git_varint(0), vec![0u8]].concat();
             out.push(("directed:untr-untracked-count-2^60", index_file(2, 0, &[], &[(b"UNTR", untr_body(1, &greedy, [empty_ewah(), empty_ewah(), empty_ewah()]))])));
             out.push(("directed:untr-block-count-2^60", index_file(2, 0, &[], &[(b"UNTR", untr_body(u64::MAX >> 4, &one_dir, [empty_ewah(), empty_ewah(), empty_ewah()]))])));
+            // UNTR: identifier length far beyond the extension
+            let mut ident = git_varint(100_000);
+            ident.extend_from_slice(&[0u8; 8]);
+            out.push(("directed:untr-identifier-length-beyond-data", index_file(2, 0, &[], &[(b"UNTR", ident)])));
+            // REUC / link / IEOT / sdir bodies that end early
+            out.push(("directed:reuc-truncated-record", index_file(2, 0, &[], &[(b"REUC", b"path\0100644\0".to_vec())])));
+            out.push(("directed:link-too-short", index_file(2, 0, &[], &[(b"link", vec![0x33; 21])])));
+            out.push(("directed:ieot-odd-size", index_file(2, 0, &[], &[(b"IEOT", vec![0, 0, 0, 1, 0, 0, 0, 12, 0xff])])));
             // FSMN v2: token, then an EWAH size larger than what follows
             let fsmn = [&2u32.to_be_bytes()[..], b"tok\0", &0x0100_0000u32.to_be_bytes()[..], &empty_ewah()].concat();
             out.push(("directed:fsmn-ewah-size-beyond-data", index_file(2, 0, &[], &[(b"FSMN", fsmn)])));
